@@ -102,6 +102,24 @@ func init() {
 		})
 	plans["C18"] = std("finite float64 values placed with SetFloat into a parsed 512-element template and rendered by Iter.MarshalJSON and Iter.StringCvt; compared byte for byte with encoding/json.Marshal, and independently: strconv.ParseFloat(text) gives the identical bits, the number of significant digits equals that of strconv.FormatFloat(f,'e',-1,64), exponent form exactly outside [1e-6,1e21). Inputs: fixed hard cases, 10^k for k=-323..308 with both neighbours, the 1e-6/1e21 switches +-3 ulps, every binade (min, max, +-1, random), all 52 subnormal leading-bit positions, integers up to 2^63 scaled by powers of ten, 15-17 digit decimals, uniformly random bit patterns; NaN/+-Inf must give an error. Distinct non-trivial = distinct finite bit patterns", 16,
 		func(c, m map[string]int64) []string { return need(c, "non_finite_rejected", 3) })
+	plans["C10"] = std("documents (strings holding every byte value and every pair of escape-needing bytes, every number kind, the C02 document workload, NDJSON) fresh and after seeded histories of in-place replacements and deletions; marshalled from the root iterator (MarshalJSON and MarshalJSONBuffer with a prefix), from single-value-scoped inner iterators (AdvanceIter / NextElementBytes / FindKey), Array.MarshalJSON and Elements.MarshalJSON. Each output must be valid JSON per the reference recogniser (valid UTF-8, well-formed surrogates, roots separated by LF), denote the model document (strings byte-equal, member order, numbers numerically equal) and be a fixed point of parse+marshal; a non-finite float placed with SetFloat must make every marshaller return an error. Distinct non-trivial = marshalled tapes whose text holds a container or an escape, by (document, edit history) hash", 16,
+		func(c, m map[string]int64) []string {
+			out := need(c, "edited_tapes", 1000)
+			out = append(out, need(c, "inner_iterators_marshalled", 5000)...)
+			return append(out, need(c, "non_finite_rejected", 1000)...)
+		})
+	plans["C12"] = std("per document: for every object (<=25 per document) FindKey for each present key (first member wins, duplicates, empty and equal-length siblings) and absent keys, FindPath for every key path below it plus absent and through-non-object continuations, ForEach with nil/empty filter and with every subset of keys (objects with <= 6 unique keys; sampled subsets above), Map and Parse/Lookup; for every array AsFloat/AsInteger/AsUint64/AsString/AsStringCvt/Interface/FirstType on a fresh Array against element-wise conversion by the math/big oracle; Iter.Int/Uint/Float on every number; FindElement from fresh and root iterators. Documents: 2^63/2^64/2^53 +-3 in int, .0, .5 and e0 spellings, homogeneous and mixed arrays, structured documents with unique and duplicate keys, corpus files. Distinct non-trivial = objects with >= 2 members looked up, by (document, position) hash", 16,
+		func(c, m map[string]int64) []string { return need(c, "foreach_filter_all_subsets_objects", 1000) })
+	plans["C13"] = std("seeded histories of 1..12 (quick) / 1..40 (thorough) Set* calls at random value positions (scalars at any depth, containers mostly SetNull), the iterator obtained through one of four routes (AdvanceInto scan, Advance/NextElementBytes, AdvanceIter/ForEach, FindKey); arguments from pools with extremes (MinInt64, MaxUint64, +-0, subnormal, empty/nil/1 MiB strings, strings needing escapes). A model tree is updated when the documentation allows the call; otherwise an error is required and Tape/Strings.B must be bit-identical. After every operation all readers (AdvanceInto, Advance, ForEach/AdvanceIter, Elements, Interface/Map, Iter/Array/Elements.MarshalJSON, FindKey/FindPath, PeekNext, and every 4th step a serialize round trip) must equal the model and the tape checker must pass. Distinct non-trivial = histories with >= 1 effective edit, by (document, history seed) hash", 16,
+		func(c, m map[string]int64) []string {
+			out := need(c, "effective_edits", 5000)
+			return append(out, need(c, "disallowed_calls_checked", 2000)...)
+		})
+	plans["C14"] = std("(a) enumeration: for every container with <= 6 members (<= 6 containers per document) every subset of members is deleted on a fresh clone, with fn only, onlyKeys only, fn+onlyKeys (unique-key objects) and SetNull on the container; (b) seeded histories of up to 4 steps mixing deletions (first/last/all/adjacent run/random subsets, nested containers) and replacements. A callback monitor checks that DeleteElems visits each (filtered) member once, in order, with its own key, type and scalar value; after every step every reader (AdvanceInto, Advance+NextElementBytes, ForEach+AdvanceIter, Object.Parse/Elements, Interface/Map, Iter.MarshalJSON, Array/Elements.MarshalJSON, FindKey/FindPath, PeekNext/PeekNextTag, serialize round trip) must equal the model and the tape checker must pass. Distinct non-trivial = (document, container, subset, variant) and (document, history) cases with >= 1 effective edit", 16,
+		func(c, m map[string]int64) []string {
+			out := need(c, "enumerated_deletions", 10000)
+			return append(out, need(c, "histories", 2000)...)
+		})
 	plans["C02"] = &plan{
 		rule:        "valid documents from the structured generator (sizes 2 B..8 MiB, depth to 100000, fan-out, duplicate/empty/equal-length keys, escapes, multi-byte UTF-8, long strings, three white-space layouts), boundary families (probe holding every token kind slid across index-buffer ordinals 1408k), documents needing 1..100+ index buffers, sizes 8192+-70, corpus files; each parsed under avx2/avx512 x copy/no-copy and read back through the AdvanceInto, Advance/NextElementBytes, ForEach/AdvanceIter, Object.Parse/Elements and Interface routes, compared with the reference tree. Distinct non-trivial = accepted documents with >= 3 values compared by >= 2 walkers, by content hash",
 		assumptions: commonAssumptions,
